@@ -39,6 +39,8 @@ def run(res, tier, seed):
     cases = [(ts, a, b) for ts in tss for (a, b) in wins]
     if tier == "quick":
         cases = rng.sample(cases, 12000)
+    offs = [0, -6 * U, -1000 * U]
+    cases = [([t + offs[n % 3] for t in ts], a + offs[n % 3], b + offs[n % 3]) for n, (ts, a, b) in enumerate(cases)]
     lines = []
     for ts, a, b in cases:
         lines.append("get_range\t%d\t%d\t%s" % (a, b, C.fmt_ints(ts)))
